@@ -466,7 +466,9 @@ class ModRef:
         return f"<{self.kind} {self.name}>"
 
     def __eq__(self, o):
-        return isinstance(o, ModRef) and (self.kind, self.name) == (o.kind, o.name)
+        if not isinstance(o, ModRef):
+            return NotImplemented
+        return (self.kind, self.name) == (o.kind, o.name)
 
     def __hash__(self):
         return hash((self.kind, self.name))
